@@ -4,7 +4,7 @@
 -/
 namespace Gleece.Cli
 
-inductive Cmd | bare | spec | routes | specAndRoutes
+inductive Cmd | bare | spec | routes | specAndRoutes | dump
 deriving DecidableEq, Repr
 
 /-- the artifacts a successful run of the command leaves: (document, routes file) -/
@@ -12,6 +12,7 @@ def artifacts : Cmd → Bool × Bool
   | .spec => (true, false)
   | .routes => (false, true)
   | .bare | .specAndRoutes => (true, true)
+  | .dump => (false, false)      -- `dump graph`: text about the project, none of the generators' artifacts
 
 /-- what is observed of one run -/
 structure Run where
